@@ -25,12 +25,12 @@ from vlib import runner, vmp, worlds, yawx
 PROPERTY = "C05"
 LEVEL = "model_checking"
 RULE = (
-    "entry points {Catalog(cache), build_trees (binned, unbinned), HistData.from_catalog, autocorrelate, "
+    "entry points {Catalog(cache), build_trees (binned, unbinned, forced with leafsize=3), HistData.from_catalog, autocorrelate, "
     "crosscorrelate} x patches {2,3|4; also 1 (single task) and 9 (= 4*2+1 tasks, two workers)} x workers {2,3,T+2} x for each pool of the call every feasible completion "
     "order (task t may complete at position j iff t < j+W; other pools in submission order - sound because every "
     "pool's output is part of the compared observation, see DESIGN.md E3a). Pools with <= 5 tasks: stateless "
     "enumeration of all orders; larger: explicit-state search, state = (consumed task set, hash of the consumer "
-    "frame's picklable locals). Plus: all pools jointly with <= 2 deviations from submission order. Plus (boundary): pickle round trips of Configuration / BinningConfig / Binning / ScalesConfig for method {linear, comoving, logspace, custom} x closed x cosmology {Planck15, WMAP9, instance, custom} x unit {deg, kpc} mean the same afterwards. Before the runs a caller edits, in place, every array obtained from Patch.redshifts / Patch.weights (results must not move). Real-pool sequences also with relative cache paths and a chdir to a directory with other catalogs in between. Oracle: "
+    "frame's picklable locals). Plus: all pools jointly with <= 2 deviations from submission order. Plus (boundary): pickle round trips of Configuration / BinningConfig / Binning / ScalesConfig for method {linear, comoving, logspace, custom} x closed x cosmology {Planck15, WMAP9, instance, custom} x unit {deg, kpc} mean the same afterwards. Before the runs a caller edits, in place, every array obtained from Patch.redshifts / Patch.weights (results must not move). Real-pool sequences also with relative cache paths and a chdir to a directory with other catalogs in between, and with physical scales under two unnamed cosmologies of one class. Oracle: "
     "observation bit-identical to the sequential (W=1, no pool) run. Inputs have pairwise different per-patch "
     "contents (asserted). Non-trivial: a pool with >= 2 tasks and an order differing from submission order ran."
 )
@@ -45,8 +45,8 @@ ASSUMPTIONS = [
 ]
 
 EDGES = [0.1, 0.2, 0.3, 0.4]
-ENTRIES = ("load", "trees-binned", "trees-unbinned", "hist", "auto", "cross")
-NPOOLS = {"load": 1, "trees-binned": 1, "trees-unbinned": 1, "hist": 1, "auto": 5, "cross": 8}
+ENTRIES = ("load", "trees-binned", "trees-unbinned", "trees-options", "hist", "auto", "cross")
+NPOOLS = {"load": 1, "trees-binned": 1, "trees-unbinned": 1, "trees-options": 2, "hist": 1, "auto": 5, "cross": 8}
 
 
 def cases(tier, seed):
@@ -86,6 +86,8 @@ def cases(tier, seed):
     # the same relative names): workers must see the parent's current state
     for w1, w2 in itertools.product((1, 2), repeat=2):
         out.append(dict(entry="realpool-seq", scenario=[["A", w1, "a"], ["A", w2, "b"]], seed=seed))
+        # physical scales with two unnamed cosmologies of one class, one after the other
+        out.append(dict(entry="realpool-seq", scenario=[["A", w1, "a", "custom"], ["A", w2, "a", "custom-sibling"]], seed=seed))
     return out
 
 
@@ -242,7 +244,7 @@ def obs_trees(cat):
         trees = bt.trees if bt.is_binned() else (bt.trees,)
         parts.append((pid, None if bt.binning is None else (bt.binning.edges.tolist(), str(bt.binning.closed))))
         for t in trees:
-            parts += [t.num_records, t.sum_weights, np.array(t.data), t.weights]
+            parts += [t.num_records, t.sum_weights, np.array(t.data), t.weights, None if t.tree is None else t.tree.leafsize]
     return h(*parts)
 
 
@@ -286,6 +288,12 @@ def make_body(entry, root, cats, closed="right"):
         def body():
             drop_trees(R)
             R.build_trees(EDGES, closed=closed)
+            return obs_trees(R)
+    elif entry == "trees-options":
+        def body():
+            # non-default options on top of existing trees of the same binning: honoured for every worker count
+            R.build_trees(EDGES, closed=closed)
+            R.build_trees(EDGES, closed=closed, leafsize=3, force=True)
             return obs_trees(R)
     elif entry == "trees-unbinned":
         def body():
